@@ -14,3 +14,27 @@ rc=$?
 grep -E "^VIOLATION|^KNOWN|^$prop |failing input|broken obligation" .work/rerun-$name.log | cut -c1-400 | head -${LINES_MAX:-14}
 echo "exit=$rc"
 git -C /repo worktree remove --force $wt
+# record the outcome of this re-check in the archive (shown by tools/seed_table.py)
+/venv/bin/python - "$name" "$rc" <<'PY'
+import json, sys, re, subprocess
+name, rc = sys.argv[1], int(sys.argv[2])
+log = open(f'/verif/.work/rerun-{name}.log').read().split('\n')
+first = next((l for l in log if l.startswith('VIOLATION')), '')
+fi = next((l.strip() for l in log if 'failing input' in l), '')
+if rc == 1 and first and 'no-failing-input-found' not in first:
+    v = 'caught with a failing input' + (': `' + fi.split('failing input:')[1].strip()[:110].replace('|', '/') + '…`' if fi else '')
+elif rc == 1:
+    v = 'caught: obligations/correspondence broken, no failing input found'
+elif rc == 0:
+    v = '**missed**'
+else:
+    v = f'harness error (exit {rc})'
+p = f'/verif/seeded/{name}/meta.json'
+try:
+    m = json.load(open(p))
+except Exception:
+    m = {'property': name[:3]}
+head = subprocess.run(['git', '-C', '/verif', 'rev-parse', '--short', 'HEAD'], capture_output=True, text=True).stdout.strip()
+m['recheck'] = f'{v} (re-run at /verif {head})'
+json.dump(m, open(p, 'w'), indent=1)
+PY
